@@ -6,10 +6,13 @@ src = json.load(open(os.path.join(ROOT, "tools", "manifest_src.json")))
 props = [json.loads(l) for l in open(os.path.join(ROOT, "properties.jsonl"))]
 checks = []
 na = []
+ready = set(json.load(open(os.path.join(ROOT, 'tools', 'ready.json'))))
 for p in props:
     pid = p["id"]
     e = src["props"].get(pid)
-    if e and e.get("claimed"):
+    have = os.path.exists(os.path.join(ROOT, "lean", "Reclass", "Props", pid + ".lean")) and \
+        os.path.exists(os.path.join(ROOT, "vlib", "props", pid.lower() + ".py")) and pid in ready
+    if e and e.get("claimed") and have:
         checks.append({
             "property_id": pid,
             "quick_cmd": "bin/check %s quick" % pid,
